@@ -27,7 +27,7 @@ def run(prog, rep, tier, cfg):
     send_bbs = [c.bb for c in E.calls if sendsmod.is_send(c)]
     # --- threshold guard: approved.len() >= num_approvals_threshold
     X.guard('K6b', 'execute:threshold', E, send_bbs,
-            m_rel('ge', ['F:Transaction.approved'], ['F:State.num_approvals_threshold'], True),
+            m_rel('ge', ['F:Transaction.approved'], ['F:State.num_approvals_threshold'], True, pure=True),
             'len(txn.approved) >= st.num_approvals_threshold')
     # --- availability check dominates the send, on the right operands
     X.call_guard('K6a', 'execute:check_available', E, send_bbs, callee_is('State::check_available'), 'State::check_available(..)?')
@@ -167,7 +167,7 @@ def run(prog, rep, tier, cfg):
         X.guard('K6b', 'remove_signer:is-signer', cl, ret, m_pred('State::is_signer', ['F:RemoveSignerParams.signer'], True), 'is_signer(old)')
         X.guard('K6b', 'remove_signer:last', cl, ret, m_rel('eq', ['F:State.signers'], ['V:1'], False), 'signers.len() == 1 => Err')
         X.guard('K6b', 'remove_signer:below-threshold', cl, ret,
-                m_rel('lt', ['F:State.signers'], ['F:State.num_approvals_threshold'], False), '!decrease && len-1 < threshold => Err',
+                m_rel('lt', ['F:State.signers', 'OP:Sub', 'V:1'], ['F:State.num_approvals_threshold'], False, pure=True), '!decrease && len-1 < threshold => Err',
                 assume=[m_boolatoms(['F:RemoveSignerParams.decrease'], True)])
         dec = X.write_blocks(cl, 'State', 'num_approvals_threshold')
         X.guard('K6b', 'remove_signer:threshold>=2', cl, dec, m_rel('lt', ['F:State.num_approvals_threshold'], ['V:2'], False), 'threshold < 2 => Err before decrement')
